@@ -258,6 +258,17 @@ def engine_channels(run):
                   "known content is stored on the member named by the table",
                   "member assignment no longer guarded by table membership",
                   fi.loc())
+        # the name / element looked up and handed on is the one received: no
+        # rewriting of the key on the way (a rewritten key is stored under a
+        # different name than it was read under)
+        pnames = [p for p in fi.params() if p != "self"]
+        rebound = sorted({d.name for d in cfg.rd.defs
+                          if d.name in pnames and d.kind != "param"})
+        run.check(not rebound, "E1", fi.qual + "::key-unchanged",
+                  "the received %s is used as it is" % "/".join(pnames),
+                  "%s is re-bound before it is looked up / stored: content "
+                  "read under one name is kept under another" % rebound,
+                  fi.loc())
     fi = m.func("SamlBase._convert_element_tree_to_member")
     cfg = cfg_of(fi, m)
     entry = "self.__class__.c_children[child_tree.tag]"
